@@ -48,12 +48,12 @@ Definition ciobs_eqb (a b : ciobs) : bool :=
   end.
 Definition ci_step (ci : cindex) (o : ciop) : cindex * ciobs :=
   match o with
-  | COnWrite f l c mn mx => let '(ci', r) := ci_on_write false ci f l c mn mx in (ci', BWrite r)
-  | COnWriteSkip f l c mn mx => let '(ci', r) := ci_on_write true ci f l c mn mx in (ci', BWrite r)
+  | COnWrite f l c mn mx => let '(ci', r) := ci_on_write (fix_partial impl_variant) false ci f l c mn mx in (ci', BWrite r)
+  | COnWriteSkip f l c mn mx => let '(ci', r) := ci_on_write (fix_partial impl_variant) true ci f l c mn mx in (ci', BWrite r)
   | CPosGE c ts => (ci, BPos (pos_ge ci c ts))
   | CPosLT c ts => (ci, BPos (pos_lt ci c ts))
   | CReadData c => (ci, BData (ci_read_data ci c))
-  | CInfo c => (ci, BInfo (match find_chunk ci c with Some k => Some (k_min k, k_max k) | None => None end))
+  | CInfo c => (ci, BInfo (match find_chunk ci c with Some k => Some (k_rmin k, k_rmax k) | None => None end))
   | CRebuild c d => (ci_rebuild (fix_zero impl_variant) ci c (unrle d), BUnit)
   | CSync cks => (ci_sync ci (map (fun ck => (fst ck, unrle (snd ck))) cks), BUnit)
   end.
@@ -102,7 +102,7 @@ Record eobs := mkeobs {
 
 Definition view_of (st : pstate) : list chunk_view :=
   map (fun ck => let cid := fst ck in
-                 (cid, match find_chunk (p_ci st) cid with Some k => Some (k_min k, k_max k) | None => None end,
+                 (cid, match find_chunk (p_ci st) cid with Some k => Some (k_rmin k, k_rmax k) | None => None end,
                   ci_read_data (p_ci st) cid)) (p_chunks st).
 Fixpoint insert_sorted (x : Z) (l : list Z) : list Z :=
   match l with [] => [x] | y :: tl => if x <=? y then x :: l else y :: insert_sorted x tl end.
@@ -140,7 +140,7 @@ Definition to_op (o : eop) : op :=
 Definition windows_of (v : variant) (st : pstate) (o1 o2 : option Z) : list (Z * Z * Z) :=
   let ci' := ci_sync (p_ci st) (p_chunks st) in
   map (fun kc => let '(k, ck) := kc in
-                 let s := fst (update_poss v ci' (eff_t1 v o1) (eff_t2 o2) (k_id k) (k_min k) (k_max k) (Z.of_nat (length (snd ck)))) in
+                 let s := fst (update_poss v ci' (eff_t1 v o1) (eff_t2 o2) (k_id k) (k_rmin k) (k_rmax k) (Z.of_nat (length (snd ck)))) in
                  (s_min s, s_max s, s_cnt s)) (combine ci' (p_chunks st)).
 
 (* the kept selector: its range and its status cache *)
